@@ -31,6 +31,12 @@ REQUIRED_THEOREMS = [
     "Acn.C17.interface_demand_aligned", "Acn.C17.energy_cost_def", "Acn.C17.demand_charge_def",
     "Acn.C17.decimal_rounding_bound", "Acn.C17.decimal_hour_close", "Acn.C17.decimal_no_flip",
     "Acn.C17.get_tariff_at_spec", "Acn.C17.getTariffsUs_eq_map", "Acn.C17.getTariffs_eq_getTariffsUs",
+    "Acn.C17.period_timedelta_exact", "Acn.C17.period_timedelta_close", "Acn.C17.get_tariffs_eq_lookup_any_period",
+    "Acn.C17.get_tariffs_instant_exact", "Acn.C17.get_tariffs_total_any_period", "Acn.C17.any_period_extends_whole_minutes",
+    "Acn.C17.interface_prices_aligned_any_period", "Acn.C17.interface_demand_aligned_any_period",
+    "Acn.C17.energy_cost_def_any_period", "Acn.C17.energy_cost_uses_given_tariff", "Acn.C17.energy_cost_given_tariff_def",
+    "Acn.C17.memo_transparent", "Acn.C17.memo_transparent_iff", "Acn.C17.get_tariffs_memo_transparent",
+    "Acn.C17.memo_key_full_sound", "Acn.C17.memo_key_month_day_visible", "Acn.C17.memo_key_day_of_month_visible",
 ] + [f"Acn.C17.{t}_{f}" for f in FILES
      for t in ("loads", "total_unambiguous", "breakpoints_ok", "tariff_total", "tariff_spec")]
 BUDGET = {"quick": 120, "thorough": 600, "search": 120}
@@ -49,8 +55,14 @@ ASSUMPTIONS = [
     "consults tzinfo, so a timezone-aware datetime is priced by its own wall clock (the same absolute instant "
     "expressed in another zone gets that zone's wall-clock price) and get_tariffs steps in un-normalised wall-clock "
     "time across a DST change (Python arithmetic on aware datetimes); microseconds are ignored (floor to the second)",
-    "periods: any timedelta step for get_tariffs (ints, floats such as 2.5 or 0.01 min, negative); Interface / "
-    "energy_cost theorems are for whole-minute periods",
+    "periods: ANY rational period for get_tariffs, Interface.get_prices / get_demand_charge and energy_cost (0.5, 2.5, 0.01 min, "
+    "negative): the step is timedelta(minutes=period) = the period rounded half-even to whole microseconds (exact for every "
+    "period that is a whole number of µs); that CPython's double arithmetic inside timedelta() reaches the same integer is "
+    "checked on every case (20 000 random periods: no difference) and otherwise trusted; element t is looked up at the whole "
+    "second CONTAINING start + t·step (microseconds dropped, not rounded)",
+    "a cache of the selected schedule does not exist in /repo; the memo theorems say which caches WOULD be invisible; the "
+    "reuse stream (one tariff object asked about the same (month, day) in many years, the same day of the month in many "
+    "months, vectors in between) is what exposes an unsound one",
     "vector length: the theorems hold for every n; the correspondence exercises n ≤ 2500 elements and spans up to "
     "about 15 months (element k is looked up on its own: nothing may be reused from k − one day / week / year)",
     "aggregate power (acnsim.aggregate_power) is an input of the cost theorems (its definition is C18)",
@@ -67,11 +79,58 @@ RULE = ("sweep cases: for a (file, year, month) every day × every breakpoint of
         "acnsim.energy_cost/demand_charge on random charging rates; load cases: loader output; decimal case: all "
         "86 400 seconds; thorough adds every minute of every day of the 14 years for all five files (run-length "
         "encoded per day).  non-trivial = touches an instant within 60 s of a breakpoint, a season boundary day, "
-        "or a vector that crosses midnight or spans more than a day; distinct by hash of the case")
+        "or a vector that crosses midnight or spans more than a day; distinct by hash of the case.  "
+        "Fourth session: every stream also has periods with seconds / half seconds / fractions of a second (0.5, 2.5, 0.25, 1.5, "
+        "7.5, 0.1, 1/60, 0.01, 1/120, 1/3 min) and starts with microseconds, placed so that one step falls 1 µs … 0.999999 s before "
+        "a price change; every case builds a FRESH tariff object, and reuse cases put ONE object through a history of get_tariff / "
+        "get_demand_charge / get_tariffs queries on the same (month, day) in 3–9 years, the same day of the month in 3–8 months, "
+        "the same weekday in several seasons; same-day vectors end on the day of the month (or the (month, day)) they start on, "
+        "one to three months (a year) later; iface cases call energy_cost / demand_charge with and without a tariff argument on a "
+        "simulation whose signals hold the tariff, another tariff, no tariff, or are None")
 
 EPOCH = datetime(1970, 1, 1)
 OFFS = [0, -1, 1, -60, 60]
 PERIODS = [1, 5, 7, 15, 60]
+# periods with seconds / half seconds / sub-second steps (minutes); all are whole numbers of microseconds except 1/3, 1/7
+SEC_PERIODS = [0.5, 2.5, 0.25, 1.5, 0.75, 7.5, 0.1, 1 / 60, 0.01, 1 / 120, 1 / 3, 12.5]
+US = timedelta(microseconds=1)
+
+
+def case_period(case):
+    """the period (minutes) as the number handed to the code"""
+    return case.get("fperiod", case["period"])
+
+
+def period_rat(p):
+    """exact value of the period as (numerator, denominator)"""
+    q = Fraction(p)
+    return q.numerator, q.denominator
+
+
+def td_exact_us(p):
+    """the period in µs rounded half-even from its exact value (what the model's `tdUs` computes)"""
+    q = Fraction(p) * 60000000
+    f = q.numerator // q.denominator
+    r = q - f
+    return f if r < Fraction(1, 2) else f + 1 if r > Fraction(1, 2) else (f if f % 2 == 0 else f + 1)
+
+
+def td_agrees(p):
+    """CPython's timedelta(minutes=p) (double arithmetic) equals the exactly rounded period"""
+    return timedelta(minutes=p) // US == td_exact_us(p)
+
+
+def sim_start_dt(case):
+    return dt(case["sim_start"]).replace(microsecond=case.get("us", 0))
+
+
+def sim_start_us(case):
+    return case["sim_start"] * 10 ** 6 + case.get("us", 0)
+
+
+def general(case):
+    """the case needs the any-period / microsecond model"""
+    return "fperiod" in case or bool(case.get("us"))
 
 
 def dt(t: int) -> datetime:
@@ -283,6 +342,31 @@ def corpus():
                 "iteration": 250, "long": "week"})
     out.append({"t": "run", "file": "sce_tou_ev_8_june_2019", "sim_start": ep(datetime(2019, 5, 23, 6, 0)), "period": 60,
                 "T": 230, "n": 230, "volt": 240, "rates": [32, 16, 0, 8], "long": "week"})
+    # periods with seconds / half seconds / fractions of a second, starts with microseconds: an element 0.4 s (0.6 s) before the
+    # 12:00 / 16:00 price change keeps the old price (microseconds are dropped, not rounded)
+    out.append({"t": "vec", "file": "sce_tou_ev_4_march_2019", "start": ep(datetime(2019, 7, 1, 11, 58, 59)), "us": 600000, "n": 6, "period": 1, "fperiod": 0.5, "seconds": True})
+    out.append({"t": "vec", "file": "sce_tou_ev_8_june_2019", "start": ep(datetime(2019, 7, 1, 15, 59, 57)), "us": 400000, "n": 12, "period": 1, "fperiod": 1 / 120, "seconds": True})
+    out.append({"t": "run", "file": "sce_tou_ev_4_march_2019", "sim_start": ep(datetime(2019, 7, 1, 11, 57, 59)), "us": 600000, "period": 1, "fperiod": 0.5,
+                "T": 8, "n": 3, "volt": 208, "rates": [16, 32, 8]})
+    out.append({"t": "run", "file": "sce_tou_ev_8_june_2019", "sim_start": ep(datetime(2019, 7, 5, 23, 52, 29)), "us": 500000, "period": 1, "fperiod": 2.5,
+                "T": 6, "n": 6, "volt": 240, "rates": [32, 8]})
+    out.append({"t": "iface", "file": "pge_a10_tou_aug_2019", "sim_start": ep(datetime(2019, 10, 31, 23, 58, 29)), "us": 999999, "period": 1, "fperiod": 0.25,
+                "rates": [[16, 32, 8, 0, 24, 6, 6, 6, 12, 30]], "volts": [208], "queries": [[0, 10], [5, 4], [6, 4], [7, 2]], "iteration": 6})
+    out.append({"t": "iface", "file": "sce_tou_ev_4_march_2019", "sim_start": ep(datetime(2019, 9, 30, 12, 0)), "us": 0, "period": 1, "fperiod": 7.5,
+                "rates": [[0] * 30 + [16, 32, 8, 0, 24] * 45 + [0] * 9], "volts": [208], "queries": [[0, 264], [96, 10], [264, 2], [200, 30]],
+                "iteration": 97, "long": "day"})
+    # ONE tariff object asked about the same (month, day) in other years (Friday, then Sunday), the same day of the month in
+    # another season, with a vector in between
+    out.append({"t": "reuse", "file": "sce_tou_ev_4_march_2019", "mode": "years",
+                "ops": [["rate", ep(datetime(2019, 7, 5, 17, 0)), 0], ["rate", ep(datetime(2020, 7, 5, 17, 0)), 0],
+                        ["demand", ep(datetime(2021, 7, 5, 17, 0)), 0], ["rate", ep(datetime(2025, 7, 5, 17, 0)), 999999]]})
+    out.append({"t": "reuse", "file": "sce_tou_ev_8_june_2019", "mode": "dom",
+                "ops": [["rate", ep(datetime(2019, 5, 31, 17, 0)), 0], ["vec", ep(datetime(2019, 5, 31, 23, 0)), 0, 4, 60],
+                        ["rate", ep(datetime(2019, 7, 31, 17, 0)), 0], ["demand", ep(datetime(2019, 10, 31, 17, 0)), 0],
+                        ["demand", ep(datetime(2019, 5, 31, 17, 0)), 0]]})
+    # a vector that ends on the day of the month it starts on, a month later, through the 1 June season change
+    out.append({"t": "vec", "file": "sce_tou_ev_4_march_2019", "start": ep(datetime(2019, 5, 15, 17, 0)), "us": 0, "n": 63, "period": 720, "long": "sameday"})
+    out.append({"t": "vec", "file": "sce_tou_ev_8_june_2019", "start": ep(datetime(2019, 7, 6, 17, 0)), "us": 0, "n": 367, "period": 1440, "long": "sameday"})
     # microseconds just below / above a breakpoint
     out.append({"t": "instants", "file": "sce_tou_ev_4_march_2019", "us": 999999,
                 "ts": [ep(datetime(2019, 7, 1, 11, 59, 59)), ep(datetime(2019, 7, 1, 12, 0, 0)), ep(datetime(2019, 12, 31, 23, 59, 59))]})
@@ -315,6 +399,28 @@ def _gen_vec(rng):
     return case
 
 
+def _gen_vec_seconds(rng):
+    """get_tariffs with a period of seconds / half seconds / fractions of a second through a price change; the start carries
+    microseconds chosen so that one element falls just (1 µs … 0.999999 s) BEFORE the change"""
+    f = rng.choice(FILES)
+    p = rng.choice(SEC_PERIODS + [1e-5, 1 / 7, 90.5])
+    step = td_exact_us(p)
+    boundary = _boundary_instants(f, rng)
+    n = rng.choice([2, 3, rng.randint(4, 40), rng.randint(40, 300)])
+    j = rng.randint(0, n - 1)
+    delta = rng.choice([0, 1, 400000, 500000, 500001, 999999, 600000, step // 2, step - 1 if step > 1 else 0])
+    if rng.random() < 0.3:
+        # steps with fractions of a millisecond, an element a few hundred µs before the change: the instant is start + t·step
+        # to the microsecond (not accumulated in floats, not rounded to milliseconds)
+        p = rng.choice([1e-5, 2.5e-5, 1 / 7, 1e-4 / 3, 1.5e-5])
+        step = td_exact_us(p)
+        j = rng.randint(1, n - 1)
+        delta = rng.choice([1, 100, 300, 499, 500, 501, 700, 999])
+    start_us = boundary * 10 ** 6 - j * step - delta
+    return {"t": "vec", "file": f, "start": start_us // 10 ** 6, "us": start_us % 10 ** 6, "n": n, "period": 1, "fperiod": p,
+            "seconds": True}
+
+
 def _gen_iface(rng):
     f = rng.choice(FILES)
     y = rng.choice(YEARS14)
@@ -325,10 +431,30 @@ def _gen_iface(rng):
     nev = rng.randint(1, 3)
     rates = [[rng.choice([0, 0, 6, 8, 16, 32, round(rng.uniform(0, 32), 3)]) for _ in range(T)] for _ in range(nev)]
     volts = [rng.choice([208, 240, 120, 277]) for _ in range(nev)]
-    return {"t": "iface", "file": f, "sim_start": start, "period": rng.choice(PERIODS), "rates": rates, "volts": volts,
+    case = {"t": "iface", "file": f, "sim_start": start, "period": rng.choice(PERIODS), "rates": rates, "volts": volts,
             "queries": [[rng.choice([0, 1, rng.randint(0, 500), rng.randint(0, 20000)]), rng.choice([0, 1, rng.randint(2, 100)])]
                         for _ in range(4)],
             "iteration": rng.randint(0, 300)}
+    if rng.random() < 0.4:
+        _seconds_period(rng, case, f)
+    return case
+
+
+def _seconds_period(rng, case, f, boundary=None, j=None):
+    """give a Simulator case a period with seconds / half seconds / sub-second steps and a start with microseconds, placed so
+    that step j falls `delta` µs BEFORE a price change (it must still get the old price: microseconds are dropped, not
+    rounded) and the following steps after it"""
+    p = rng.choice(SEC_PERIODS)
+    step = td_exact_us(p)
+    boundary = _boundary_instants(f, rng) if boundary is None else boundary
+    T = len(case["rates"][0]) if case["t"] == "iface" else case["T"]
+    j = rng.randint(0, max(0, T - 1)) if j is None else j
+    delta = rng.choice([0, 0, 1, 400000, 500000, 500001, 999999, step // 2])
+    start_us = boundary * 10 ** 6 - j * step - delta
+    case["fperiod"] = p
+    case["period"] = 1
+    case["sim_start"], case["us"] = start_us // 10 ** 6, start_us % 10 ** 6
+    return case
 
 
 def _boundary_instants(name, rng):
@@ -360,9 +486,12 @@ def _gen_run(rng):
     T = rng.randint(4, 36)
     j = rng.randint(1, T - 1)           # the boundary falls on iteration j of the run
     boundary = _boundary_instants(f, rng)
-    return {"t": "run", "file": f, "sim_start": boundary - j * p * 60, "period": p, "T": T,
+    case = {"t": "run", "file": f, "sim_start": boundary - j * p * 60, "period": p, "T": T,
             "n": rng.choice([1, 2, 3, T, rng.randint(1, T + 5)]), "volt": rng.choice([208, 240, 277]),
             "rates": [rng.choice([0, 6, 8, 16, 32, round(rng.uniform(0, 32), 2)]) for _ in range(rng.randint(1, 7))]}
+    if rng.random() < 0.4:
+        _seconds_period(rng, case, f, boundary, j)
+    return case
 
 
 def _gen_run_aligned(rng, f):
@@ -465,27 +594,123 @@ def _gen_iface_long(rng):
     window from a late start index, energy_cost over the whole horizon (with idle head / tail periods)"""
     f = rng.choice(FILES)
     cyc = rng.choice(["day", "week", "week", "4weeks"])
-    start, p, T = _long_geometry(rng, cyc, _change_midnight(f, rng), [5, 15, 20, 30, 60, 120, 240, 720, 1440], 1200)
+    start, p, T = _long_geometry(rng, cyc, _change_midnight(f, rng),
+                                 [5, 15, 20, 30, 60, 120, 240, 720, 1440] if rng.random() < 0.7 else [2.5, 7.5, 12.5, 37.5, 90.5, 360.25], 1200)
     nev = rng.randint(1, 2)
     head = rng.choice([0, 0, rng.randint(1, max(1, T // 2))])
     tailz = rng.choice([0, 0, rng.randint(1, max(1, T // 3))])
     pat = [rng.choice([0, 6, 8, 16, 32, round(rng.uniform(0, 32), 3)]) for _ in range(rng.randint(1, 29))]
     rates = [[0 if (k < head or k >= T - tailz) else pat[(k + 3 * i) % len(pat)] for k in range(T)] for i in range(nev)]
     a, b = rng.randint(0, T), rng.randint(0, T)
-    return {"t": "iface", "file": f, "sim_start": start, "period": p, "rates": rates,
+    case = {"t": "iface", "file": f, "sim_start": start, "period": p, "rates": rates,
             "volts": [rng.choice([208, 240, 120, 277]) for _ in range(nev)],
             "queries": [[0, T], [a, rng.randint(1, T)], [b, T], [T, 2]], "iteration": rng.randint(0, T), "long": cyc}
+    return _float_long(rng, case)
+
+
+def _float_long(rng, case):
+    if not isinstance(case["period"], int):
+        case["fperiod"], case["period"] = case["period"], 1
+        case["us"] = rng.choice([0, 500000, 999999])
+    return case
 
 
 def _gen_run_long(rng):
     """a real Simulator run that lasts longer than a day / a week with a schedule change after the first cycle"""
     f = rng.choice(FILES)
     cyc = rng.choice(["day", "week", "week"])
-    start, p, T = _long_geometry(rng, cyc, _change_midnight(f, rng), [30, 60, 120, 240, 720], 420)
-    return {"t": "run", "file": f, "sim_start": start, "period": p, "T": T,
-            "n": rng.choice([T, T + 5, 2 * T, rng.randint(1, T)]), "volt": rng.choice([208, 240, 277]),
-            "rates": [rng.choice([0, 6, 8, 16, 32, round(rng.uniform(0, 32), 2)]) for _ in range(rng.randint(1, 7))],
-            "long": cyc}
+    start, p, T = _long_geometry(rng, cyc, _change_midnight(f, rng),
+                                 [30, 60, 120, 240, 720] if rng.random() < 0.7 else [7.5, 12.5, 37.5, 90.5], 420)
+    return _float_long(rng, {"t": "run", "file": f, "sim_start": start, "period": p, "T": T,
+                             "n": rng.choice([T, T + 5, 2 * T, rng.randint(1, T)]), "volt": rng.choice([208, 240, 277]),
+                             "rates": [rng.choice([0, 6, 8, 16, 32, round(rng.uniform(0, 32), 2)]) for _ in range(rng.randint(1, 7))],
+                             "long": cyc})
+
+
+# ---- reuse stream: ONE tariff object, a history of queries.  Every other case builds a fresh TimeOfUseTariff, so that a
+# replay is self-contained; anything the object remembers between calls (a schedule cached under a key that forgets the
+# weekday — i.e. the year —, the month, …) can only show here: the same (month, day) in many years, the same day of the
+# month in many months, the same weekday and time in several seasons, vectors in between.
+
+def _gen_reuse(rng, f=None, mode=None):
+    f = f or rng.choice(FILES)
+    mode = mode or rng.choice(["years", "years", "dom", "weekday", "mixed"])
+    bps = [b for b in file_breakpoint_secs(f) if 0 < b < 86399]
+    tod = min(86399, max(0, rng.choice(bps + [0, 12 * 3600]) + rng.choice([0, 0, -1, 1])))
+    days = []
+
+    def years_days():
+        mo, dd = rng.choice([(rng.randint(1, 12), rng.randint(1, 28))] + sorted(season_boundary_days(f)))
+        ys = rng.sample(YEARS14 + [rng.randint(1964, 2066) for _ in range(4)], rng.randint(3, 9))
+        return [datetime(y, mo, dd) for y in ys if not ((mo, dd) == (2, 29) and datetime(y, 3, 1) - datetime(y, 2, 28) == timedelta(days=1))]
+
+    def dom_days():
+        dd = rng.choice([1, 15, 28, 30, 31, rng.randint(1, 28)])
+        out = []
+        for y in rng.sample(YEARS14, rng.choice([1, 1, 2])):
+            for mo in rng.sample(range(1, 13), rng.randint(3, 8)):
+                try:
+                    out.append(datetime(y, mo, dd))
+                except ValueError:
+                    pass
+        return out
+
+    def weekday_days():
+        y, w = rng.choice(YEARS14), rng.randrange(7)
+        out = []
+        for mo in rng.sample(range(1, 13), rng.randint(3, 8)):
+            d = datetime(y, mo, rng.randint(1, 21))
+            while d.weekday() != w:
+                d += timedelta(days=1)
+            out.append(d)
+        return out
+
+    if mode == "years":
+        days = years_days()
+    elif mode == "dom":
+        days = dom_days()
+    elif mode == "weekday":
+        days = weekday_days()
+    else:
+        days = years_days() + dom_days() + weekday_days()
+        rng.shuffle(days)
+        days = days[:12]
+    ops = []
+    for d in days:
+        t = ep(d) + tod
+        us = rng.choice([0, 0, 0, 999999, 500000])
+        r = rng.random()
+        if r < 0.55:
+            ops.append(["rate", t, us])
+        elif r < 0.75:
+            ops.append(["demand", t, us])
+        else:
+            ops.append(["vec", t - rng.choice([0, 60, 3600]), us, rng.randint(2, 12), rng.choice([1, 5, 15, 60, 0.5, 2.5])])
+    return {"t": "reuse", "file": f, "mode": mode, "ops": ops}
+
+
+def _gen_vec_sameday(rng):
+    """a vector whose LAST element has the same day of the month (one to three months later) or the same (month, day) (a year
+    later) as its first, with a season change / other weekday class in between: what a 'same .day ⇒ same day' fast path or a
+    per-(month, day) reuse gets wrong"""
+    f = rng.choice(FILES)
+    y = rng.choice(YEARS14)
+    if rng.random() < 0.75:
+        mo, dd = rng.choice(season_changes(f))
+        d0 = datetime(y, mo, dd) - timedelta(days=rng.randint(1, 27))
+        if d0.day > 28:
+            d0 = d0.replace(day=28)
+        k = rng.choice([1, 1, 1, 2, 3])
+        m1 = d0.month - 1 + k
+        d1 = datetime(d0.year + m1 // 12, m1 % 12 + 1, d0.day)
+    else:
+        d0 = datetime(y, rng.randint(1, 12), rng.randint(1, 28))
+        d1 = datetime(y + 1, d0.month, d0.day)
+    mins = (d1 - d0) // timedelta(minutes=1)
+    p = rng.choice([q for q in (1440, 720, 480, 360, 240, 180, 120, 90, 60) if mins // q + 1 <= MAX_LONG_N])
+    tod = rng.choice([0, 12 * 3600, 17 * 3600, rng.randrange(86400)])
+    return {"t": "vec", "file": f, "start": ep(d0) + tod, "us": rng.choice([0, 0, 0, 999999]), "n": mins // p + 1, "period": p,
+            "long": "sameday"}
 
 
 def _long_stream(rng, n_random):
@@ -496,7 +721,14 @@ def _long_stream(rng, n_random):
             for cyc in ("day", "week", "4weeks", rng.choice(["52weeks", "year", "leapyear"])):
                 out.append(_gen_vec_long(rng, f, cyc, md))
     for j in range(n_random):
-        out.append(_gen_run_long(rng) if j % 6 == 5 else (_gen_iface_long(rng) if j % 6 == 2 else _gen_vec_long(rng)))
+        out.append(_gen_run_long(rng) if j % 6 == 5 else (_gen_iface_long(rng) if j % 6 == 2 else
+                                                          (_gen_vec_sameday(rng) if j % 6 == 3 else _gen_vec_long(rng))))
+    # one object across years / months: every file, the three pure modes
+    for f in FILES:
+        for mode in ("years", "dom", "weekday"):
+            out.append(_gen_reuse(rng, f, mode))
+    for j in range(max(6, n_random // 2)):
+        out.append(_gen_reuse(rng))
     return out
 
 
@@ -508,7 +740,8 @@ def generate(rng, n, tier):
             for mo in range(1, 13):
                 out.append({"t": "sweep", "file": f, "year": y, "month": mo})
     for i in range(n):
-        out.append(_gen_run(rng) if i % 3 == 2 else (_gen_iface(rng) if i % 9 == 4 else _gen_vec(rng)))
+        out.append(_gen_run(rng) if i % 3 == 2 else (_gen_iface(rng) if i % 9 == 4 else
+                                                     (_gen_vec_seconds(rng) if i % 9 in (1, 7) else _gen_vec(rng))))
     out.extend(_long_stream(rng, max(24, n // 5)))
     if tier == "thorough":
         for f in FILES:
@@ -527,7 +760,8 @@ def search(rng, n):
             for mo in range(1, 13):
                 out.append({"t": "sweep", "file": f, "year": y, "month": mo})
     for i in range(n):
-        out.append(_gen_run(rng) if i % 3 == 2 else _gen_vec(rng))
+        out.append(_gen_run(rng) if i % 3 == 2 else (_gen_iface(rng) if i % 9 == 4 else
+                                                     (_gen_vec_seconds(rng) if i % 9 in (1, 7) else _gen_vec(rng))))
     out.extend(_long_stream(rng, max(24, n // 3)))
     return out
 
@@ -541,6 +775,17 @@ def shrink(case, kind):
             o = run_impl(one)
             if any(f["kind"] == kind for f in oracle(one, o)):
                 return one
+    if case["t"] == "reuse" and len(case["ops"]) > 2:
+        ops = case["ops"]
+        for i in range(len(ops)):            # a single query, then a pair (earlier query, failing query)
+            one = dict(case, ops=[ops[i]])
+            if any(f["kind"] == kind for f in oracle(one, run_impl(one))):
+                return one
+        for j in range(len(ops)):
+            for i in range(j):
+                two = dict(case, ops=[ops[i], ops[j]])
+                if any(f["kind"] == kind for f in oracle(two, run_impl(two))):
+                    return two
     if case["t"] == "vec" and case["n"] > 1:
         def fails(n):
             c = dict(case, n=n)
@@ -556,14 +801,11 @@ def shrink(case, kind):
 
 # ------------------------------------------------------------------ implementation
 
-_tariffs = {}
-
-
 def _tariff(name):
+    """a FRESH tariff object (62 µs): every case is self-contained, so a replay reproduces what the run saw; what an object
+    carries from one call to the next is the business of the reuse cases (one object, a history of queries)"""
     from acnportal.signals.tariffs.tou_tariff import TimeOfUseTariff
-    if name not in _tariffs:
-        _tariffs[name] = TimeOfUseTariff(name)
-    return _tariffs[name]
+    return TimeOfUseTariff(name)
 
 
 def _err(e: Exception) -> str:
@@ -579,6 +821,10 @@ def _err(e: Exception) -> str:
             return "notStartAtZero"
         if "dow_mask" in m:
             return "badMask"
+        if m.startswith("No pricing method"):
+            return "pick:ValueError"
+    if isinstance(e, TypeError) and "not iterable" in m:
+        return "pick:TypeError"          # `"tariff" in sim.signals` with signals = None
     if isinstance(e, IndexError):
         return "indexError"
     return f"{type(e).__name__}: {m[:80]}"
@@ -648,6 +894,16 @@ def run_impl(case):
                             for i, x in enumerate(ts)]}
     if t == "vec":
         return {"prices": _call(tar.get_tariffs, vec_start(case), case["n"], vec_period(case))}
+    if t == "reuse":
+        def ask(obj, op):
+            d = dt(op[1]).replace(microsecond=op[2])
+            if op[0] == "rate":
+                return _call(obj.get_tariff, d)
+            if op[0] == "demand":
+                return _call(obj.get_demand_charge, d)
+            return _call(obj.get_tariffs, d, op[3], op[4])
+        # the history on ONE object, and every query once more on an object of its own
+        return {"results": [ask(tar, op) for op in case["ops"]], "fresh": [ask(_tariff(case["file"]), op) for op in case["ops"]]}
     if t == "minutes":
         import multiprocessing as mp
         with mp.get_context("fork").Pool(min(12, os.cpu_count() or 1)) as pool:
@@ -686,7 +942,7 @@ def _run_iface(case, tar):
         net.register_evse(EVSE(f"S{i}", max_rate=32), v, 0)
         ids.append(f"S{i}")
     net.add_constraint(Current(ids), 1000, name="c")  # (constraint-free networks: finding F3, C06)
-    sim = Simulator(net, BaseAlgorithm(), EventQueue(), dt(case["sim_start"]), period=case["period"],
+    sim = Simulator(net, BaseAlgorithm(), EventQueue(), sim_start_dt(case), period=case_period(case),
                     signals={"tariff": tar}, verbose=False)
     iface = Interface(sim)
     out = {"queries": []}
@@ -703,8 +959,17 @@ def _run_iface(case, tar):
     # an explicitly given tariff that DIFFERS from the simulation's own signal: the argument decides
     other = FILES[(FILES.index(case["file"]) + 1) % len(FILES)]
     out["other_file"] = other
-    out["energy_cost_other"] = _call(acnsim.energy_cost, sim, _tariff(other))
-    out["demand_charge_other"] = _call(acnsim.demand_charge, sim, _tariff(other))
+    otar = _tariff(other)
+    out["energy_cost_other"] = _call(acnsim.energy_cost, sim, otar)
+    out["demand_charge_other"] = _call(acnsim.demand_charge, sim, otar)
+    # the rest of the contract: no "tariff" signal (argument given / not given), signals = None (argument given / not given)
+    contract = {}
+    for tag, sig in (("nosignal", {}), ("nodict", None)):
+        sim.signals = sig
+        contract[tag] = {"energy_cost_arg": _call(acnsim.energy_cost, sim, otar), "demand_charge_arg": _call(acnsim.demand_charge, sim, otar),
+                         "energy_cost": _call(acnsim.energy_cost, sim), "demand_charge": _call(acnsim.demand_charge, sim)}
+    sim.signals = {"tariff": tar}
+    out["contract"] = contract
     return out
 
 
@@ -762,7 +1027,7 @@ def _run_real(case, tar):
     net.register_evse(EVSE("S0", max_rate=32), case["volt"], 0)
     net.add_constraint(Current(["S0"]), 1000, name="c")
     ev = EV(0, T, 1e6, "S0", "sess0", Battery(1e6, 0, 1e6))
-    sim = Simulator(net, Rec(), EventQueue([PluginEvent(0, ev)]), dt(case["sim_start"]), period=case["period"],
+    sim = Simulator(net, Rec(), EventQueue([PluginEvent(0, ev)]), sim_start_dt(case), period=case_period(case),
                     signals={"tariff": tar}, verbose=False)
     sim.run()
     final = int(sim.iteration)
@@ -774,7 +1039,7 @@ def _run_real(case, tar):
     out = {"queries": record, "final": final, "agg": [float(x) for x in agg], "whole": whole,
            "energy_cost": _call(acnsim.energy_cost, sim), "demand_charge": _call(acnsim.demand_charge, sim)}
     if isinstance(whole, list):
-        out["sum_prices_power_dt"] = float(np.array(whole).dot(agg) * (case["period"] / 60))
+        out["sum_prices_power_dt"] = float(np.array(whole).dot(agg) * (case_period(case) / 60))
     return out
 
 
@@ -795,24 +1060,47 @@ def model_request(case):
         ts = instants_of(case)
         return {"op": "instants", "file": case["file"], "ts": ts, "py": [_py_fields(x) for x in ts]}
     if t == "vec":
-        if "fperiod" in case or case.get("tz") or case.get("us"):
-            # general form: microsecond start (wall clock of the datetime handed over), timedelta step in µs
-            step = timedelta(minutes=vec_period(case))
-            return {"op": "tariffs_us", "file": case["file"], "start_us": case["start"] * 10 ** 6 + case.get("us", 0),
-                    "n": case["n"], "step_us": step // timedelta(microseconds=1)}
-        return {"op": "tariffs", "file": case["file"], "start": case["start"], "n": case["n"], "period": case["period"]}
+        return _vec_req(case["file"], case["start"], case.get("us", 0), case["n"], vec_period(case),
+                        "fperiod" in case or bool(case.get("tz")) or bool(case.get("us")))
+    if t == "reuse":
+        return {"op": "load", "file": case["file"]}      # the per-query requests are made in `compare`
     if t == "minutes":
         d0 = ep(datetime(case["year"], 1, 1)) // 86400
         days = (datetime(case["year"] + 1, 1, 1) - datetime(case["year"], 1, 1)).days
         return {"op": "minutes", "file": case["file"], "day0": d0, "days": days}
     if t == "iface":
-        # several driver ops in one case: pack them as a list handled by `_ask_many`
-        return {"op": "iface", "file": case["file"], "sim_start": case["sim_start"], "period": case["period"],
-                "iteration": 0, "start": case["queries"][0][0], "n": case["queries"][0][1]}
+        return _iface_req(case, 0, case["queries"][0][0], case["queries"][0][1])
     if t == "run":
-        return {"op": "iface", "file": case["file"], "sim_start": case["sim_start"], "period": case["period"],
-                "iteration": 0, "start": None, "n": 1}
+        return _iface_req(case, 0, None, 1)
     return None
+
+
+def _vec_req(file, start, us, n, period, general_form):
+    """get_tariffs request: whole-minute period and whole-second start → `getTariffs`; otherwise the rational-period model
+    `getTariffsP` (when CPython's timedelta agrees with the exactly rounded period — always, so far) or, failing that, the
+    timedelta step as an input (`getTariffsUs`)"""
+    if not general_form and isinstance(period, int) and period >= 0:
+        return {"op": "tariffs", "file": file, "start": start, "n": n, "period": period}
+    if td_agrees(period):
+        a, b = period_rat(period)
+        return {"op": "tariffs_p", "file": file, "start_us": start * 10 ** 6 + us, "n": n, "p_num": a, "p_den": b}
+    return {"op": "tariffs_us", "file": file, "start_us": start * 10 ** 6 + us, "n": n, "step_us": timedelta(minutes=period) // US}
+
+
+def _iface_req(case, iteration, start, n):
+    if not general(case):
+        return {"op": "iface", "file": case["file"], "sim_start": case["sim_start"], "period": case["period"],
+                "iteration": iteration, "start": start, "n": n}
+    a, b = period_rat(case_period(case))
+    return {"op": "iface_p", "file": case["file"], "sim_start_us": sim_start_us(case), "p_num": a, "p_den": b,
+            "iteration": iteration, "start": start, "n": n}
+
+
+def _cost_req(case, agg, arg, sig):
+    """energy_cost(sim, tariff=arg) / demand_charge(sim, tariff=arg) with sim.signals = {"tariff": sig} | {} (None) | None ("nodict")"""
+    a, b = period_rat(case_period(case))
+    return {"op": "cost_p", "sim_start_us": sim_start_us(case), "p_num": a, "p_den": b, "period_f": f2b(float(case_period(case))),
+            "agg": [f2b(x) for x in agg], "arg": arg, "sig": sig}
 
 
 _drv = None
@@ -891,7 +1179,22 @@ def compare(case, obs, model):
     if t == "vec":
         if not _same(obs["prices"], _mval(model["prices"])):
             out.append(f"get_tariffs impl={str(obs['prices'])[:200]} model={str(_mval(model['prices']))[:200]}")
+        if "step_us" in model and model["step_us"] != timedelta(minutes=vec_period(case)) // US:
+            out.append(f"timedelta(minutes={vec_period(case)}) is {timedelta(minutes=vec_period(case)) // US} µs, model tdUs = {model['step_us']}")
         return out
+    if t == "reuse":
+        drv = _driver()
+        reqs = []
+        for op in case["ops"]:
+            if op[0] in ("rate", "demand"):
+                reqs.append({"op": "instants", "file": case["file"], "ts": [op[1]], "py": [_py_fields(op[1])]})
+            else:
+                reqs.append(_vec_req(case["file"], op[1], op[2], op[3], op[4], True))
+        for i, (op, a, r) in enumerate(zip(case["ops"], obs["results"], drv.ask(reqs))):
+            m = _mval(r["rates"][0]) if op[0] == "rate" else _mval(r["demands"][0]) if op[0] == "demand" else _mval(r["prices"])
+            if not _same(a, m):
+                out.append(f"query {i} {op} on the reused object: impl={str(a)[:120]} model={str(m)[:120]}")
+        return out[:6]
     if t == "minutes":
         for i, (a, m) in enumerate(zip(obs["days"], model["days"])):
             mm = [[_mval(x[0]), x[1]] for x in m]
@@ -903,10 +1206,15 @@ def compare(case, obs, model):
         return out
     if t == "run":
         drv = _driver()
-        base = {"file": case["file"], "sim_start": case["sim_start"], "period": case["period"]}
-        reqs = [dict(base, op="iface", iteration=q["at"], start=q["start"], n=case["n"]) for q in obs["queries"]]
-        reqs.append(dict(base, op="iface", iteration=obs["final"], start=0, n=len(obs["agg"])))
-        reqs.append(dict(base, op="cost", agg=[f2b(x) for x in obs["agg"]]))
+        if general(case) and not td_agrees(case_period(case)):
+            return []
+        reqs = [_iface_req(case, q["at"], q["start"], case["n"]) for q in obs["queries"]]
+        reqs.append(_iface_req(case, obs["final"], 0, len(obs["agg"])))
+        if general(case):
+            reqs.append(_cost_req(case, obs["agg"], None, case["file"]))
+        else:
+            reqs.append({"op": "cost", "file": case["file"], "sim_start": case["sim_start"], "period": case["period"],
+                         "agg": [f2b(x) for x in obs["agg"]]})
         res = drv.ask(reqs)
         for q, r in zip(obs["queries"], res):
             tag = f"iteration {q['at']} ({q['where']}) start={q['start']}{' (numpy int)' if q['np'] else ''}"
@@ -924,13 +1232,27 @@ def compare(case, obs, model):
         return out[:6]
     if t == "iface":
         drv = _driver()
-        reqs = [{"op": "iface", "file": case["file"], "sim_start": case["sim_start"], "period": case["period"],
-                 "iteration": 0, "start": idx, "n": n} for idx, n in case["queries"]]
-        reqs.append({"op": "iface", "file": case["file"], "sim_start": case["sim_start"], "period": case["period"],
-                     "iteration": case["iteration"], "start": None, "n": 3})
-        reqs.append({"op": "cost", "file": case["file"], "sim_start": case["sim_start"], "period": case["period"],
-                     "agg": [f2b(x) for x in obs["agg"]]})
+        if not td_agrees(case_period(case)):
+            return []
+        reqs = [_iface_req(case, 0, idx, n) for idx, n in case["queries"]]
+        reqs.append(_iface_req(case, case["iteration"], None, 3))
+        nq = len(reqs)
+        # the explicit-tariff contract (energyCostWith / demandChargeWith): argument, else signals["tariff"], else an error
+        f_, o_ = case["file"], obs.get("other_file")
+        plan = [("explicit", obs["energy_cost_explicit"], None, f_, f_),
+                ("other", obs["energy_cost_other"], obs["demand_charge_other"], o_, f_)]
+        for tag, sig in (("nosignal", None), ("nodict", "nodict")):
+            ct = obs["contract"][tag]
+            plan.append((tag + "+arg", ct["energy_cost_arg"], ct["demand_charge_arg"], o_, sig))
+            plan.append((tag, ct["energy_cost"], ct["demand_charge"], None, sig))
+        reqs.extend(_cost_req(case, obs["agg"], arg, sig) for _, _, _, arg, sig in plan)
+        reqs.append(_cost_req(case, obs["agg"], None, f_))
         res = drv.ask(reqs)
+        for (tag, ec, dc, arg, sig), r in zip(plan, res[nq:-1]):
+            if not _same(ec, _mval(r["energy_cost"])):
+                out.append(f"energy_cost(sim, tariff={arg}) with signals tariff={sig} [{tag}]: impl={ec} model={_mval(r['energy_cost'])}")
+            if dc is not None and not _same(dc, _mval(r["demand_charge"])):
+                out.append(f"demand_charge(sim, tariff={arg}) with signals tariff={sig} [{tag}]: impl={dc} model={_mval(r['demand_charge'])}")
         for i, q in enumerate(obs["queries"] + [obs["current"]]):
             if not _same(q["prices"], _mval(res[i]["prices"])):
                 out.append(f"get_prices query {i}: impl={str(q['prices'])[:160]} model={str(_mval(res[i]['prices']))[:160]}")
@@ -1027,9 +1349,25 @@ def oracle(case, obs):
             if k != 1440:
                 fails.setdefault(f"vector_misaligned:{name}", f"{d}: {k} minutes")
             d += timedelta(days=1)
+    elif t == "reuse":
+        # one object, a history: EVERY answer is what the statement says for that instant alone — nothing may depend on what
+        # the object was asked before
+        for i, (op, got) in enumerate(zip(case["ops"], obs["results"])):
+            d = dt(op[1]).replace(microsecond=op[2])
+            before = set(fails)
+            if op[0] == "vec":
+                _check_vector(name, d, op[3], op[4], got, fails, f"query {i} of {len(case['ops'])} on one tariff object: get_tariffs({d}, {op[3]}, {op[4]})")
+            else:
+                _check_instant(name, d, got, fails, f"query {i} of {len(case['ops'])} on one tariff object: "
+                               + ("get_tariff" if op[0] == "rate" else "get_demand_charge"), op[0] == "demand")
+            fresh = (obs.get("fresh") or [None] * len(case["ops"]))[i]
+            for k in set(fails) - before:
+                # wrong on the reused object but not on an object of its own: the object remembers something it must not
+                if k.split(":")[0] in ("rate_wrong", "demand_wrong", "vector_misaligned", "unexpected_exception") and fresh != got:
+                    fails[f"answer_depends_on_history:{name}"] = fails.pop(k) + f" (a fresh object answers {str(fresh)[:80]})"
     elif t == "run":
-        st = dt(case["sim_start"])
-        p = case["period"]
+        st = sim_start_dt(case)
+        p = case_period(case)
         n = case["n"]
         for q in obs["queries"]:
             idx = q["at"] if q["start"] is None else q["start"]   # an explicit start is taken as given, 0 included
@@ -1059,8 +1397,8 @@ def oracle(case, obs):
         if obs["final"] < case["T"] or len(agg) < case["T"]:
             fails["run_shape"] = f"final iteration {obs['final']}, {len(agg)} columns for T={case['T']}"
     elif t == "iface":
-        st = dt(case["sim_start"])
-        p = case["period"]
+        st = sim_start_dt(case)
+        p = case_period(case)
         for (idx, n), q in zip(case["queries"] + [[case["iteration"], 3]], obs["queries"] + [obs["current"]]):
             s0 = st + idx * timedelta(minutes=p)
             _check_vector(name, s0, n, p, q["prices"], fails, f"Interface.get_prices({n}, {idx}) period {p}")
@@ -1092,6 +1430,17 @@ def oracle(case, obs):
                 if isinstance(obs["demand_charge_other"], str) or not close(obs["demand_charge_other"], expdo):
                     fails[f"explicit_tariff_not_used:{oname}"] = (f"demand_charge(sim, {oname}) on a simulation whose signal is {name}: "
                                                                   f"{obs['demand_charge_other']} expected rate×peak = {expdo}")
+                # … also when the simulation has no tariff signal / no signals at all; and without an argument these raise
+            # … whatever sim.signals holds (that tariff, no tariff, None): the SAME answer for the same argument
+            for tag, ct in (obs.get("contract") or {}).items():
+                if not _same(ct["energy_cost_arg"], obs["energy_cost_other"]) or not _same(ct["demand_charge_arg"], obs["demand_charge_other"]):
+                    fails[f"explicit_tariff_depends_on_signals:{oname}"] = (
+                        f"signals {tag}: energy_cost(sim, {oname}) = {ct['energy_cost_arg']}, demand_charge(sim, {oname}) = {ct['demand_charge_arg']}; "
+                        f"with signals['tariff'] = {name}: {obs['energy_cost_other']}, {obs['demand_charge_other']}")
+            for tag, ct in (obs.get("contract") or {}).items():
+                if not isinstance(ct["energy_cost"], str) or not isinstance(ct["demand_charge"], str):
+                    fails["cost_without_any_tariff"] = (f"signals {tag}, no tariff argument: energy_cost = {ct['energy_cost']}, "
+                                                        f"demand_charge = {ct['demand_charge']} (expected an exception)")
     return [{"kind": k, "detail": v} for k, v in fails.items()]
 
 
@@ -1108,6 +1457,8 @@ def nontrivial(case, obs):
     if t == "run":
         # the rates differ inside the run, so a window shifted by the wrong start is visible
         return isinstance(obs["whole"], list) and len(set(obs["whole"])) > 1
+    if t == "reuse":
+        return len(case["ops"]) >= 2
     if t == "vec":
         return case["n"] > 0 and (case["start"] % 86400) + case["n"] * case["period"] * 60 > 86400 or case["n"] >= 10 \
             or abs(span_minutes(case)) > 1440
@@ -1157,6 +1508,22 @@ def _span_features(tag, name, start, n, period):
     return out
 
 
+def _elem_features(tag, name, start, n, period):
+    """does an element carry seconds / microseconds, and does one fall within the last second before a price change with
+    microseconds ≥ 0.5 s (where rounding the microseconds instead of dropping them changes the price)"""
+    out = set()
+    bps = set(file_breakpoint_secs(name)) | {86400}
+    for k in range(min(n, 400)):
+        d = start + k * timedelta(minutes=period)
+        if d.second:
+            out.add(f"{tag}_element_with_seconds")
+        if d.microsecond:
+            out.add(f"{tag}_element_with_microseconds")
+            if d.microsecond >= 500000 and (d.hour * 3600 + d.minute * 60 + d.second + 1) in bps:
+                out.add(f"{tag}_element_in_last_half_second_before_breakpoint")
+    return sorted(out)
+
+
 def features(case, obs):
     t = case["t"]
     out = ["case:" + t]
@@ -1180,9 +1547,33 @@ def features(case, obs):
             out.append("tz:" + case["tz"])
         if "fperiod" in case:
             out.append("float_period:" + str(round(case["fperiod"], 5)))
+        if case.get("seconds"):
+            out.append("vec_seconds_period")
+        if case.get("long") == "sameday":
+            out.append("vec_ends_on_same_day_of_month")
+        out.extend(_elem_features("vec", case["file"], vec_start(case, aware=False), case["n"], vec_period(case)))
         out.extend(_span_features("vec", case["file"], vec_start(case, aware=False), case["n"], vec_period(case)))
+    if t == "reuse":
+        out.append("reuse_mode:" + case.get("mode", "?"))
+        out.append("reuse_queries:" + str(min(len(case["ops"]), 10)))
+        insts = [dt(op[1]) for op in case["ops"]]
+        if len({(d.month, d.day) for d in insts}) < len({(d.year, d.month, d.day) for d in insts}):
+            out.append("reuse_same_month_day_other_year")
+            if len({(d.month, d.day, d.weekday() >= 5) for d in insts}) > len({(d.month, d.day) for d in insts}):
+                out.append("reuse_same_month_day_other_weekday_class")
+        if len({d.day for d in insts}) < len({(d.month, d.day) for d in insts}):
+            out.append("reuse_same_day_of_month_other_month")
+        if len({_season_key(case["file"], d) for d in insts}) > 1:
+            out.append("reuse_seasons>1")
+        out.extend(sorted({"reuse_op:" + op[0] for op in case["ops"]}))
+    if t in ("run", "iface"):
+        out.append("sim_period:" + ("seconds:" + str(round(case["fperiod"], 5)) if "fperiod" in case else "minutes"))
+        if case.get("us"):
+            out.append("sim_start_microseconds")
+        if isinstance(obs.get("agg"), list):
+            out.extend(_elem_features(t, case["file"], sim_start_dt(case), len(obs["agg"]), case_period(case)))
     if t == "run":
-        out.append("period:" + str(case["period"]))
+        out.append("period:" + str(case_period(case)))
         seen = set()
         for q in obs["queries"]:
             idx = q["at"] if q["start"] is None else q["start"]
@@ -1194,13 +1585,16 @@ def features(case, obs):
         if isinstance(obs["whole"], list) and len(set(obs["whole"])) > 1:
             seen.add("run_crosses_rate_change")
         out.extend(sorted(seen))
-        out.extend(_span_features("run", case["file"], dt(case["sim_start"]), len(obs["agg"]), case["period"]))
+        out.extend(_span_features("run", case["file"], sim_start_dt(case), len(obs["agg"]), case_period(case)))
     if t == "iface":
-        out.append("period:" + str(case["period"]))
-        out.extend(_span_features("cost", case["file"], dt(case["sim_start"]), len(obs["agg"]), case["period"]))
+        out.append("period:" + str(case_period(case)))
+        out.extend(_span_features("cost", case["file"], sim_start_dt(case), len(obs["agg"]), case_period(case)))
         for idx, n in case["queries"]:
-            out.extend(_span_features("prices", case["file"], dt(case["sim_start"]) + idx * timedelta(minutes=case["period"]),
-                                      n, case["period"]))
+            out.extend(_span_features("prices", case["file"], sim_start_dt(case) + idx * timedelta(minutes=case_period(case)),
+                                      n, case_period(case)))
+        ct = obs.get("contract") or {}
+        if ct:
+            out.append("contract:" + ",".join(f"{k}={'raises' if isinstance(v['energy_cost'], str) else 'value'}" for k, v in sorted(ct.items())))
         if obs["agg"] and obs["agg"][0] == 0 and any(obs["agg"]):
             out.append("cost_idle_head")
         if case.get("aligned"):
